@@ -140,6 +140,30 @@ theorem sched_release_delivers_all (s : St) (h : SReachable s) (hs : s.stuck = f
   obtain ⟨a, b, c⟩ := sched_idle_all_delivered _ hr hg
   exact ⟨a, b, c, hg⟩
 
+/-- `Schedule` has no deadline: any amount of clock time, in any number of pieces, changes nothing at all -/
+theorem sched_wait_inert (s : St) (l : List Nat) : runOps s (l.map Op.wait) = s := by
+  induction l with
+  | nil => rfl
+  | cons a l ih =>
+    show runOps (step s (Op.wait a)) (l.map Op.wait) = s
+    exact ih
+
+/-- **a long handler loses nothing**: however long the executing handler keeps the loop goroutine (waits interleaved with
+any posts are covered by `SReachable`), the runs buffered in the channel and the posters parked inside `Schedule` are all
+still there, and when the handler returns every one of them is served -/
+theorem sched_long_handler_loses_nothing (s : St) (h : SReachable s) (hs : s.stuck = false) (l : List Nat) :
+    (runOps s (l.map Op.wait)).queue = s.queue ∧ (runOps s (l.map Op.wait)).blocked = s.blocked ∧
+    (runOps s (l.map Op.wait)).mq = s.mq ∧ (release (runOps s (l.map Op.wait))).mq = [] := by
+  rw [sched_wait_inert]
+  exact ⟨rfl, rfl, rfl, (sched_release_delivers_all s h hs).1⟩
+
+/-- non-vacuity: a gated handler, 11 foreign posts (2 posters parked in `Schedule`), an hour passes, release: all 12 delivered -/
+example :
+    let ops := Op.post 0 1 true :: (List.range 11).map (fun i => Op.post (3 + i) ((3 + i) * 100 + 1) false) ++ [Op.wait 3600000]
+    (runOps init ops).blocked.length = 2 ∧ (runOps init ops).stuck = false ∧
+    (runOps init (ops ++ [Op.release])).ran.length = 12 := by
+  decide
+
 /-- defect witness (reproduced on the real scheDisp: one handler posting to 10 idle siblings never returns): a gated
 handler, nine foreign posts fill the channel, the handler posts to a tenth idle mailbox — the loop goroutine is stuck;
 the release and a later post deliver nothing -/
